@@ -31,7 +31,10 @@ class Rule:
     caller's frame) of the state the callbacks may change;  enter_kind / leave_kind: kind of the callback results
     ('bool' | 'int' | 'real' | 'oref' | callable(E) -> fresh symbolic value);  leave_args_kind likewise for the list elements."""
 
-    def __init__(self, J, Qe=None, Ql=None, modifies=(), enter_kind="oref", leave_kind="oref", depth=None, label="traverse"):
+    def __init__(self, J, Qe=None, Ql=None, modifies=(), enter_kind="oref", leave_kind="oref", depth=None, label="traverse",
+                 ghost_enter=None, ghost_leave=None):
+        # ghost_enter / ghost_leave(E, vars, x, ctx): ghost code run right after the real callback (may update ghost objects listed in `modifies` only)
+        self.ghost_enter, self.ghost_leave = ghost_enter, ghost_leave
         self.J, self.Qe, self.Ql = J, Qe or (lambda E, v, x, val, ctx: True), Ql or (lambda E, v, x, val, ctx: True)
         self.modifies = list(modifies)
         self.enter_kind, self.leave_kind = enter_kind, leave_kind
@@ -101,6 +104,7 @@ def apply(eng, rule: Rule, fr, topology, enter, leave, root):
     eng.assumptions.add("ghost definitions per traverse call: Sub (subtree of the start node), nkids / kid / rank (children in table order)")
     eng.assumptions.add("derived rule: traverse client rule (consequence of the proved contract of _traverse_dfs, argued in DESIGN.md)")
     ctx = Ctx(P, n, rz, Sub, nkids, kid, rank)
+    eng.ghost["last-traverse-Sub"] = Sub  # so that the caller's postconditions can speak about the subtree of this call
 
     def vars_now():
         eng.cur_frame = fr
@@ -111,7 +115,13 @@ def apply(eng, rule: Rule, fr, topology, enter, leave, root):
 
         out = []
         for m in rule.modifies:
-            out.append(eng.ev(_ast.parse(m, mode="eval").body, fr))
+            hint = None
+            if isinstance(m, tuple):  # ("expr", element kinds): a still-concrete list / dict is promoted to a symbolic one of that element type
+                m, hint = m
+            t = eng.ev(_ast.parse(m, mode="eval").body, fr)
+            if hint is not None and getattr(t, "items", None) is not None:
+                t.hint = hint
+            out.append(t)
         return out
 
     def havoc():
@@ -149,6 +159,8 @@ def apply(eng, rule: Rule, fr, topology, enter, leave, root):
                 pre = _mk_value(eng, rule.enter_kind, "pre")
                 eng.assume(_zb(rule.Qe(eng, vars_now(), par, pre, ctx)))
             ret = eng.call(enter, [xs, pre], {})
+            if rule.ghost_enter is not None:
+                rule.ghost_enter(eng, vars_now(), xz, ctx)
             ENT2 = z3.Store(ENT, xz, z3.BoolVal(True))
             eng.prove(f"{lab}/enter/invariant-preserved", _zb(rule.J(eng, vars_now(), ENT2, LEFT, ctx)), "invariant")
             eng.prove(f"{lab}/enter/returned-value-as-specified", _zb(rule.Qe(eng, vars_now(), xz, ret, ctx)), "invariant")
@@ -177,6 +189,8 @@ def apply(eng, rule: Rule, fr, topology, enter, leave, root):
             v = vars_now()
             eng.assume(z3.ForAll([k], z3.Implies(z3.And(0 <= k, k < nkids(xz)), _zb(rule.Ql(eng, v, kid(xz, k), Sym(sel(args.cols[0], k), kind), ctx)))))
             ret = eng.call(leave, [xs, args], {})
+            if rule.ghost_leave is not None:
+                rule.ghost_leave(eng, vars_now(), xz, ctx)
             LEFT2 = z3.Store(LEFT, xz, z3.BoolVal(True))
             eng.prove(f"{lab}/leave/invariant-preserved", _zb(rule.J(eng, vars_now(), ENT, LEFT2, ctx)), "invariant")
             eng.prove(f"{lab}/leave/returned-value-as-specified", _zb(rule.Ql(eng, vars_now(), xz, ret, ctx)), "invariant")
